@@ -80,6 +80,8 @@ def doc_pool():
         docs.sami_doc([(1000, [("en-US", "one"), ("fr-FR", "un")]), (2000, [("en-US", "&nbsp;")]), (2500, [("fr-FR", "deux<br/><i>d</i>")]), (3000, [("en-US", "three")])], ["en-US", "fr-FR"], extra_css=".ENCC { margin-left: 2%; text-align: center; }"),
         docs.sami_doc([(1000, [("de-DE", "eins")]), (1500, [("es-ES", "uno"), ("en-US", "one")]), (2000, [("de-DE", "zwei")])], ["de-DE", "es-ES", "en-US"]),
         "<SAMI><BODY><SYNC><P class=ENCC>no start: reader raises</P></SYNC></BODY></SAMI>",
+        # two classes declare the same language with different layouts (which one wins must not depend on hashing)
+        docs.sami_doc([(1000, [("en-US", "one")]), (2000, [("en-US", "two")])], ["en-US"], extra_css=".ENCC { margin-left: 2%; text-align: center; }\n.ENALT { Name: alt; lang: en-US; margin-left: 9%; text-align: right; }\n.ENTHIRD { Name: third; lang: en-US; margin-top: 7%; text-align: left; }"),
     ]
     p["scc"] = [
         c05.program_doc([c05.wrap(c05.FIRST[3]), c05.wrap(c05.FIRST[7])], True),
